@@ -463,14 +463,36 @@ def _merge_python_version_single_markers(
 
 
 def _normalize_python_version_specifier(marker: MarkerExpression) -> BaseSpecifier:
-    from dep_logic.specifiers import parse_version_specifier
+    from dep_logic.specifiers import (
+        EmptySpecifier,
+        RangeSpecifier,
+        parse_version_specifier,
+    )
 
     op, value = marker.op, marker.value
     if op in ("in", "not in"):
         # skip this case, so in the following code value must be a dotted version string
         return marker.specifier
     splitted = [p.strip() for p in value.split(".")]
-    if len(splitted) > 2 or "*" in splitted:
+    if len(splitted) > 2 and all(p.isdigit() for p in splitted):
+        # python_version only ever holds X.Y, i.e. the version X.Y.0: a literal X.Y.Z
+        # with a non-zero tail lies strictly between the X.Y and X.(Y+1) values
+        tail_is_zero = all(int(p) == 0 for p in splitted[2:])
+        splitted = splitted[:2]
+        if tail_is_zero:
+            if op == "~=":
+                # ~=X.Y.0 is ">=X.Y.0, ==X.Y.*": exactly python_version X.Y
+                op = "=="
+        elif op in (">=", ">"):
+            op = ">"
+        elif op in ("<=", "<"):
+            op = "<="
+        elif op == "!=":
+            return RangeSpecifier()
+        else:
+            # == and ~= can never be satisfied by an X.Y value
+            return EmptySpecifier()
+    elif len(splitted) > 2 or "*" in splitted:
         return marker.specifier
     if len(splitted) == 1 and op != "~=":
         # python_version "3" is python_version "3.0"
